@@ -9,6 +9,7 @@ Every write to process-wide state that is reachable from the public API must be 
   lock-protected - inside `with <threading lock>`
   out of scope   - guarded by try_previous_locales / detect_languages_function (excluded by the property)
 otherwise it is a finding (a temporary override, a per-call value on a singleton, an unsynchronised eviction ...).
+R2: the registry key of Settings covers every key and value, so calls with different settings never share an instance.
 """
 import ast
 
@@ -53,6 +54,9 @@ def run(ctx, chk):
                key={"function": f.key, "target": tnorm}, file=f.file, function=f.qual, line=node.lineno,
                text=" ".join(ast.unparse(node).split())[:160])
     chk.extra["classification"] = cats
+    # R2 sharing granularity: the registry hands one Settings object to two calls only when their settings are equal
+    from .c03 import registry_key_rule
+    registry_key_rule(ctx, chk, "C20.R2")
     chk.assume("thread-local and lock idioms are recognised syntactically: `with <name containing lock>`")
 
 
